@@ -107,7 +107,7 @@ def collect(run, focus, net, r, desc, traces, tdesc, progs, pdesc):
         # harness-side findings: exceptions and wrong numeric values are C02 matters; C04 keeps
         # only those raised by queries of figures, by the operation itself, or aliasing
         if focus == "value" or what.startswith("raised:snapshot") or what.startswith("raised:rebuild") \
-                or what == "raised" or what == "aliasing":
+                or what == "raised" or what == "aliasing" or what == "raised:path":
             desc["_cand"].append((k, 0, f"step {k} ({op}): {what}: {msg}", tags_for(desc, k, what.split(':')[0])))
     if r["trace"] is not None:
         traces.append(r["trace"])
